@@ -439,12 +439,22 @@ def r10_state_tested_under_the_guard_that_changes_it(cx):
     ws = b.calls(r"sync::RwLock::<.*ClusterReader>::write$")
     if len(ws) != 1:
         raise AnchorLost("Cluster::build_plain_reader: %d RwLock::write" % len(ws))
-    en = F.enum("reader::content_pack::cluster::ClusterReader")
-    plain = next(v["discr"] for v in en["variants"] if v["name"] == "Plain")
-    r, _ = b.explore(start=ws[0][0], assume_discr={r"cluster::ClusterReader$": plain}, avoid=b.error_blocks())
-    panics = sorted(b.ln(i) for i in (b.panic_blocks() & r))
-    returns = any(b.term(i)["k"] == "return" for i in r)
-    swaps = [st.get("ln") for i in r for st in b.blocks[i]["s"] if st["k"] == "assign" and st["rv"]["k"] == "agg" and (st["rv"].get("adt") or "").endswith("cluster::ClusterReader")]
+    # whatever the state is made of (an enum, a flag): once the write lock is held there is a way to a normal return that
+    # neither builds the decoding reader (it starts with a stream on the raw data) nor panics -- the "already done" exit
+    build = {i for i, _ in b.calls(r"Reader::create_stream$", r"SeekableDecoder::new$", r"cluster::(lz4|lzma|zstd)_(source|reader)$")}
+    if not build:
+        raise AnchorLost("Cluster::build_plain_reader no longer builds a reader on the raw data")
+    after = b.reachable(b.term(ws[0][0]).get("t"), avoid=build | b.panic_blocks() | b.error_blocks())
+    returns = any(b.term(i)["k"] == "return" for i in after)
+    panics, swaps = [], []
+    try:
+        en = F.enum("reader::content_pack::cluster::ClusterReader")
+        plain = next(v["discr"] for v in en["variants"] if v["name"] == "Plain")
+        r, _ = b.explore(start=ws[0][0], assume_discr={r"cluster::ClusterReader$": plain}, avoid=b.error_blocks())
+        panics = sorted(b.ln(i) for i in (b.panic_blocks() & r))
+        swaps = [st.get("ln") for i in r for st in b.blocks[i]["s"] if st["k"] == "assign" and st["rv"]["k"] == "agg" and (st["rv"].get("adt") or "").endswith("cluster::ClusterReader")]
+    except (AnchorLost, StopIteration):
+        pass        # the state is no longer that enum: the structural form above decides
     cx.ob("R10", "R10/build_plain_reader/already-plain-under-the-write-lock", returns and not panics and not swaps, f,
           "with the reader already Plain when the write lock is obtained, build_plain_reader returns (%s) without panicking (panics at lines %s) and without building a reader again (lines %s)" % (returns, panics, swaps), ln=ws[0][1].get("ln"))
 
